@@ -240,6 +240,20 @@ def spec (i : Input) (o : Obs) : Bool :=
   specConfA i o && specConfAdv i o && specIssued i o && specKey i o && specRecover i o &&
   specWrongKey i o && specCorrupt i o && specOrder i o
 
+/-! ### histories
+
+  One long-lived IdP (and one long-lived recipient) answers a sequence of calls while the metadata store
+  changes between them (reload: certificates added, removed, rotated; several recipients interleaved).  The
+  model is a function of the call and of the store in force AT THAT CALL (`Call.md`) and of nothing else, so a
+  history is just the list of its steps; the specification of a history is the per-call specification of
+  every step.  That the implementation carries no state from one call to the next is not a theorem: it is
+  what the correspondence over histories checks. -/
+
+def observeHistory (steps : List Input) : List Obs := steps.map observe
+
+def specHistory (steps : List Input) (obs : List Obs) : Bool :=
+  decide (steps.length = obs.length) && (steps.zip obs).all (fun p => spec p.1 p.2)
+
 /-! ### the input classes of the two defects repaired by 130fd4d2 / 9b391349
 
   No theorem depends on them any more; the driver reports them so that the harness can name the root
